@@ -60,21 +60,108 @@ def overlay_json():
 
 
 _harness_bin = None
+_props = None          # the properties the running check needs from the harness (set_props)
+harness_subset = None  # the file subset used when the full harness did not build
 
 
-def build_harness(race=False):
-    """Compile the harness from /repo's CURRENT working tree (hooks on: -tags verif -overlay)."""
-    global _harness_bin
-    if _harness_bin and not race:
-        return _harness_bin, ""
-    out = os.path.join(scratch(), "harness-race" if race else "harness")
-    cmd = ["go", "build", "-tags", "verif", "-overlay", overlay_json(), "-o", out]
+def set_props(props, translators=()):
+    """Tell build_harness which properties (and translator subcommands) the running check needs, so
+    that when the full harness no longer compiles against /repo (a change broke a hook of some
+    OTHER property) the check can still run on the part of the harness it depends on."""
+    global _props
+    _props = (list(props), list(translators))
+
+
+_DECL = re.compile(r"^(?:func (\w+)|type (\w+)|var (\w+)|const (\w+))", re.M)   # top-level, methods excluded
+_GROUP = re.compile(r"^(?:var|const) \((.*?)^\)", re.M | re.S)
+
+
+def _decls(src):
+    names = {n for m in _DECL.finditer(src) for n in m.groups() if n}
+    for g in _GROUP.finditer(src):
+        names |= set(re.findall(r"^\t(\w+)", g.group(1), re.M))
+    return names
+
+
+def _subset_build(out, race, props, translators):
+    """Compiler-driven closure: start from the common files and the files of the given properties
+    (and of the translators they use), add the file defining each identifier the compiler reports as
+    undefined, until the subset builds or nothing more can be added."""
+    cmd = os.path.join(HARN, "cmd")
+    srcs = {f: strip_go_comments(open(os.path.join(cmd, f)).read()) for f in os.listdir(cmd) if f.endswith(".go")}
+    defs = {}
+    for f, src in srcs.items():
+        for n in _decls(src):
+            defs.setdefault(n, set()).add(f)
+    ovdefs = {}
+    for root, _, files in os.walk(os.path.join(HARN, "overlay")):
+        for f in files:
+            if f.endswith(".go"):
+                path = os.path.join(root, f)
+                for n in set(re.findall(r"^func (?:\([^)]*\) )?(Verif\w+)|^(?:type|var|const) (Verif\w+)", open(path).read(), re.M)):
+                    for x in n:
+                        if x:
+                            ovdefs.setdefault(x, set()).add(path)
+    sel = {"main.go", "term.go", "profterm.go"}
+    for f, src in srcs.items():
+        if any(re.match(r"c%s(\D|$)" % p[1:], f) for p in props):
+            sel.add(f)
+        if any(('subcmds["%s"]' % t) in src for t in translators):
+            sel.add(f)
+    log = ""
+    for _ in range(15):
+        ov = set()
+        for f in sel:
+            for n in set(re.findall(r"\.(Verif\w+)", srcs[f])):
+                ov |= ovdefs.get(n, set())
+        rep = {os.path.join(REPO, os.path.relpath(x, os.path.join(HARN, "overlay"))): x for x in ov}
+        for f in sel:
+            rep[os.path.join(REPO, "internal/zzverif/harness", f)] = os.path.join(cmd, f)
+        path = os.path.join(scratch(), "overlay-subset.json")
+        with open(path, "w") as fh:
+            json.dump({"Replace": rep}, fh)
+        rc, log = _go_build(out, path, race)
+        if rc == 0:
+            return 0, log, dict(cmd=sorted(sel), overlay=sorted(os.path.relpath(x, HARN) for x in ov))
+        add = set()
+        for n in re.findall(r": undefined: (\w+)", log):
+            add |= defs.get(n, set())
+        if not (add - sel):
+            break
+        sel |= add
+    return 1, log, None
+
+
+def strip_go_comments(src):
+    return re.sub(r"//[^\n]*", "", re.sub(r"/\*.*?\*/", "", src, flags=re.S))
+
+
+def _go_build(out, overlay, race):
+    cmd = ["go", "build", "-tags", "verif", "-overlay", overlay, "-o", out]
     env = dict(GOENV)
     if race:
         cmd.insert(2, "-race")
         env["CGO_ENABLED"] = "1"
     cmd.append("./internal/zzverif/harness")
     rc, log, _ = sh(cmd, cwd=REPO, env=env, timeout=600)
+    return rc, log
+
+
+def build_harness(race=False):
+    """Compile the harness from /repo's CURRENT working tree (hooks on: -tags verif -overlay).  If the
+    whole harness does not compile, fall back to the files the running check depends on."""
+    global _harness_bin, harness_subset
+    if _harness_bin and not race:
+        return _harness_bin, ""
+    out = os.path.join(scratch(), "harness-race" if race else "harness")
+    rc, log = _go_build(out, overlay_json(), race)
+    if rc != 0 and _props:
+        rc2, log2, sub = _subset_build(out, race, *_props)
+        if rc2 == 0:
+            harness_subset = dict(sub, full_build_log=log[-1500:])
+            rc, log = 0, log2
+        else:
+            log = log + "\n--- subset build (files this check depends on) ---\n" + log2
     if rc != 0:
         return None, log
     if not race:
